@@ -5,6 +5,7 @@ import (
 	"errors"
 	"fmt"
 	"strings"
+	"sync/atomic"
 	"time"
 
 	"github.com/risor-io/risor"
@@ -153,13 +154,14 @@ func (bg *blockGen) goroutine(depth int) string {
 }
 
 type blockProg struct {
-	Src         string
-	EntrySrc    string // variant: prelude+function, called through risor.Call
-	MainReturns bool   // main terminates by itself; only goroutines run on
-	NGoroutines int
-	Defers      int
-	Depth       int
-	Shapes      []string
+	Src           string
+	EntrySrc      string // variant: prelude+function, called through risor.Call
+	MainReturns   bool   // main terminates by itself; only goroutines run on
+	SharedSenders bool
+	NGoroutines   int
+	Defers        int
+	Depth         int
+	Shapes        []string
 }
 
 func genBlock(g *sim.Stream) *blockProg {
@@ -172,7 +174,22 @@ func genBlock(g *sim.Stream) *blockProg {
 		main.WriteString(bg.goroutine(1 + g.Intn(3)))
 		main.WriteString("\n")
 	}
-	p.MainReturns = p.NGoroutines > 0 && g.Chance(1, 6)
+	if g.Chance(1, 5) {
+		// several goroutines (and possibly main) send on ONE buffered channel
+		// that a single receiver drains: senders compete for every free slot
+		p.SharedSenders = true
+		bg.Shapes = append(bg.Shapes, "shared-senders")
+		fmt.Fprintf(&bg.prelude, "cs := chan(%d)\n", 1+g.Intn(2))
+		for i := 0; i < 2+g.Intn(2); i++ {
+			main.WriteString("go func() { for { cs <- 1 } }()\n")
+		}
+		main.WriteString("go func() { for { <-cs; tick() } }()\n")
+		p.NGoroutines += 3
+		if g.Bool() {
+			main.WriteString("for { cs <- 2 }\n")
+		}
+	}
+	p.MainReturns = p.NGoroutines > 0 && !p.SharedSenders && g.Chance(1, 6)
 	if p.MainReturns {
 		main.WriteString("tick()\n42\n")
 	} else {
@@ -208,6 +225,8 @@ func init() {
 		},
 	})
 }
+
+var c06Spin atomic.Int64
 
 func ctxErrCarried(err error) bool {
 	if err == nil {
@@ -249,6 +268,8 @@ func runC06(rc *fw.RunCtx) {
 
 	var ctx context.Context
 	var cancel context.CancelFunc
+	var stepCancel func(at int)
+	siteAimed := false
 	var deadline time.Duration
 	if useDeadline {
 		deadline = time.Duration(1+f.Intn(5000)) * time.Millisecond
@@ -266,18 +287,51 @@ func runC06(rc *fw.RunCtx) {
 	} else {
 		ctx, cancel = context.WithCancel(context.Background())
 		if f.Chance(1, 4) {
+			siteAimed = true
 			// aimed at a site (inside a primitive, at a task start, at the
 			// watcher's fire point); the step-based cancel stays as a fallback
 			// in case the site is never reached
 			armSiteFault(s, f, "cancel", func() { rc.Hit("fault_cancel_at_site"); cancel() })
 			cancelStep = 200 + f.Intn(400)
 		}
-		s.AtStep(cancelStep, "cancel", func() {
+		stepCancel = func(at int) {
+			s.AtStep(at, "cancel", func() {
+				rc.Hit("fault_cancel")
+				cancel()
+			})
+		}
+	}
+
+	// phase P: a seeded serial prefix, then every task is released at once and
+	// runs truly in parallel; the cancel lands after a short real-time spin.
+	// What is checked stays a quiescence statement: once nothing can move any
+	// more (synctest) and the fake clock has run to its horizon, a task that is
+	// still blocked will never exit.
+	parallel := !useDeadline && !siteAimed && (f.Chance(1, 6) || (prog.SharedSenders && f.Chance(2, 3)))
+	if stepCancel != nil {
+		if parallel {
+			stepCancel(1 << 20) // only a fallback: the parallel window cancels on its own
+		} else {
+			stepCancel(cancelStep)
+		}
+	}
+	if parallel {
+		rc.Hit("fault_parallel_window")
+		spin := 200 + f.Intn(30000)
+		if prog.SharedSenders {
+			spin *= 8 // senders need time to collide on a free slot
+		}
+		s.AtStep(f.Intn(150), "release-parallel-window", func() {
+			s.FreeRun()
+			// a plain CPU spin (yielding here would queue this goroutine behind
+			// the busy tasks for a scheduler quantum per yield)
+			for i := 0; i < spin*20; i++ {
+				c06Spin.Add(1)
+			}
 			rc.Hit("fault_cancel")
 			cancel()
 		})
 	}
-
 	out := &EvalOutcome{}
 	s.Go("main", "main", func() {
 		guard(out, func() (object.Object, error) {
